@@ -152,8 +152,9 @@ def appliedColumns (p : PJoin) (tcols : Cols) : Cols :=
 
 /-- `PartialJoin.commute(current)`: `first` is the partial join itself when it moves. -/
 def commute (p : PJoin) (cur : UOp) (tcols ccols : Cols) : Option PJoin × UOp × Bool :=
-  -- a target column with the name of a non-common column of the fixed relation would be shadowed
-  if !((p.fixed.columns.inter tcols).subset p.join.minCols) then (none, cur, false) else
+  -- a target column, or a column `cur` adds, with the name of a non-common column of the fixed relation would be
+  -- shadowed
+  if !((p.fixed.columns.inter (tcols.union ccols)).subset p.join.minCols) then (none, cur, false) else
   match cur with
   | .dedup => (none, cur, false)
   | .proj _ => (some p, .proj (p.appliedColumns ccols), true)
